@@ -154,6 +154,7 @@ def make_struct_members(xml_elem, dynamic_array=False):
         else:
             size = dimension.get("size", None)
             size2 = dimension.get("size2", None)
+            size, size2 = (expr and expand_operators(expr) for expr in (size, size2))
             if size2:
                 def factor(expr):
                     return expr if re.match(r"\w+$", str(expr)) else "({})".format(expr)
@@ -198,7 +199,7 @@ def make_union(xml_elem):
             members.append(model.UnionMember(
                 required(member, "name"),
                 required(member, "type"),
-                required(member, "discriminatorValue"),
+                expand_operators(required(member, "discriminatorValue")),
                 docstring=get_docstr(member),
             ))
         return model.Union(required(xml_elem, 'name'), members, docstring=get_docstr(xml_elem))
